@@ -211,7 +211,7 @@ def round_trip(typ, axis_kinds, dtype, lazy, zipped, metadata, rng, scratch, res
     return ev
 
 
-def list_round_trip(typs, axis_kinds, dtype, lazy, zipped, metadata, rng, scratch):
+def list_round_trip(typs, axis_kinds, dtype, lazy, zipped, metadata, rng, scratch, after_longer=False):
     """Several results written together (ComputableList.to_zarr, what a multi-detector simulation saves) and read back: every item
     must come back as itself.  One event per item."""
     import abtem
@@ -225,9 +225,16 @@ def list_round_trip(typs, axis_kinds, dtype, lazy, zipped, metadata, rng, scratc
         objs = [make_object(t, axis_kinds, dtype, lazy, dict(metadata, item=i), rng) for i, t in enumerate(typs)]
         for ev, o in zip(evs, objs):
             ev["before"] = project(o, it)
-        ComputableList(objs).to_zarr(path, overwrite=True)
+        if after_longer:
+            # the store has a history: a LONGER list was saved to the same place before, and this one is saved with the default flags
+            ComputableList([make_object(typs[0], (), np.float32, False, {"item": 100 + j}, rng) for j in range(len(typs) + 2)]).to_zarr(path, overwrite=True)
+            ComputableList(objs).to_zarr(path)
+        else:
+            ComputableList(objs).to_zarr(path, overwrite=True)
         back = abtem.from_zarr(path)
         back = back if isinstance(back, list) else [back]
+        if len(back) != len(objs):
+            raise RuntimeError(f"{len(back)} items came back for {len(objs)} saved")
         for i, ev in enumerate(evs):
             if i >= len(back):
                 ev["raised"] = True
@@ -325,6 +332,14 @@ def run(ctx: Ctx):
                     e2["metadata_repr"] = repr(md["vf"])[:300]
                     evs.append(e2)
                 ctx.case(("list", tuple(typs), kinds, j % 16 == 1, j % 3 == 0))
+            if j % 40 == 9:
+                # a long list (more than ten items: the store's item keys do not sort like numbers) and a list saved over a longer one
+                ms = [x for x in OBJ_TYPES if x not in ("Waves", "PotentialArray")]
+                for typs, kw in (([ms[(j + i) % len(ms)] for i in range(12)], {}), ([ms[(j + i) % len(ms)] for i in range(2)], {"after_longer": True})):
+                    for e2 in list_round_trip(typs, (), np.float32, lazy=False, zipped=bool(kw) and (j % 80 == 9), metadata=md, rng=rng, scratch=scratch, **kw):
+                        e2["metadata_repr"] = repr(md["vf"])[:300]
+                        evs.append(e2)
+                    ctx.case(("long list" if not kw else "list over a longer one", tuple(typs), j))
     finally:
         shutil.rmtree(scratch, ignore_errors=True)
     for e in evs[:2]:
